@@ -1,5 +1,6 @@
 import SoundeventModel.Ops.Common
 import SoundeventModel.Relational
+import SoundeventModel.RelationalHistory
 namespace SE.Ops.C04
 open Lean SE SE.Relational
 
@@ -28,6 +29,21 @@ def fldOptF (j : Json) (k : String) : Except String (Option F) :=
   | none => .ok none
   | some v => do return some (← getF v)
 
+/-- one step of a session (keys that only say *how* the Python side realises the step are ignored) -/
+def getStep (j : Json) : Except String HStep := do
+  match ← fldStr j "do" with
+  | "new" => return .new (← fldNat j "h") (← fldStr j "clip") (← fldStrs j "ids")
+  | "set_ids" => return .setIds (← fldNat j "h") (← fldStrs j "ids")
+  | "set_clip" => return .setClip (← fldNat j "h") (← fldStr j "clip")
+  | "copy" =>
+    let ids ← match fldOpt j "ids" with
+      | none => pure none
+      | some v => do pure (some (← (← getArr v).mapM (·.getStr?)))
+    return .copy (← fldNat j "src") (← fldNat j "dst") ids
+  | "eval" =>
+    return .eval (← fldNat j "ann") (← fldNat j "pred") (← (← fldArr j "matches").mapM getMatch) (← fldOptRat j "score")
+  | d => .error s!"C04: unknown history step {d}"
+
 def handle (op : String) (a : Json) : Except String Json := do
   match op with
   | "clip_eval" =>
@@ -36,8 +52,11 @@ def handle (op : String) (a : Json) : Except String Json := do
       annIds := ← fldStrs a "ann_ids", predIds := ← fldStrs a "pred_ids",
       ms := ← (← fldArr a "matches").mapM getMatch, score := ← fldOptRat a "score" }
     return boolJ arr.accepted
+  | "clip_eval_history" =>
+    let steps ← (← fldArr a "steps").mapM getStep
+    return arrJ ((runHistory [] steps).map (optJ boolJ))
   | "match" => return boolJ (matchOk (← getMatch a))
-  | "project" => return boolJ (projectOk (← fldStrs a "task_clips") (← fldStrs a "ann_clips"))
+  | "project" => return boolJ (projectOkFast (← fldStrs a "task_clips") (← fldStrs a "ann_clips"))
   | "clip" => return boolJ (clipOk (← fldRat a "start") (← fldRat a "end"))
   | "unit" => return boolJ (optUnitOk (← fldOptRat a "x"))
   | "unit_f" => return boolJ (optUnitOkF (← fldOptF a "x"))
